@@ -395,7 +395,7 @@ def work_binary(bins, seed, n):
 
 def run(ctx):
     quick = ctx.tier == "quick"
-    per = 600 if quick else 6000
+    per = 600 if quick else 24000
     jobs = [(ctx.bins, "%s/%d/%d" % (ctx.prop, ctx.seed, i), per, TZS[i % len(TZS)]) for i in range(32)]
     merged = {}
     for r in core.pmap(work, jobs):
@@ -411,7 +411,7 @@ def run(ctx):
             merged[k] = h
         for s in r["samples"][:1]:
             ctx.sample(s, cap=4)
-    for r in core.pmap(work_binary, [(ctx.bins, "%s/%d/b%d" % (ctx.prop, ctx.seed, i), 40 if quick else 500) for i in range(16)]):
+    for r in core.pmap(work_binary, [(ctx.bins, "%s/%d/b%d" % (ctx.prop, ctx.seed, i), 40 if quick else 1500) for i in range(16)]):
         ctx.evaluations += r["n"]
         ctx.count("binary_runs", r["n"])
         for sig, why, case in r["bad"]:
